@@ -1,5 +1,6 @@
 """C14 - lifecycle: hooks installed once, restored exactly; shutdown always completes (spec/Lifecycle.tla)."""
 import random
+import sys
 import threading
 import time
 
@@ -280,8 +281,67 @@ def plugin_cleans_up_leg(c, wd):
         c.violation('a plugin unregisters its tracepoint in its own shutdown(): %s' % out['problems'][:3], p_)
 
 
+def hanging_poll_leg(c, wd):
+    """The service stops answering: a poll is in flight, and stays in flight, when shutdown() is called. shutdown() still
+    completes (in bounded time), the hooks are put back and the agent counts as stopped."""
+    import threading
+    out = {}
+
+    def body():
+        sysm = D.LifeSystem(wd, False, 'None', 'None')
+        problems = []
+        hang = threading.Event()
+        try:
+            sysm.start()
+            sysm.poll_hang = hang
+            t0 = time.time()
+            while not getattr(sysm, 'poll_hanging', False) and time.time() - t0 < 5:
+                time.sleep(0.01)        # (the poll timer fires every 20 ms: one poll is hanging now)
+            if not getattr(sysm, 'poll_hanging', False):
+                raise tlc.MachineryError('no poll in flight')
+            done = threading.Event()
+            box = {}
+
+            def sd():
+                try:
+                    sysm.deep.shutdown()
+                except BaseException as ex:
+                    box['ex'] = ex
+                finally:
+                    box['hook'] = sys.gettrace()
+                    done.set()
+            t = threading.Thread(target=sd)
+            t0 = time.time()
+            t.start()
+            returned = done.wait(25)
+            box['took'] = time.time() - t0
+            if not returned:
+                problems.append('shutdown() had not returned 25 s after it was called while a poll was hanging')
+            hang.set()
+            done.wait(30)
+            if 'ex' in box:
+                problems.append('shutdown() raised %r' % (box['ex'],))
+            if sysm.deep.started:
+                problems.append('the agent still counts as started')
+        finally:
+            hang.set()
+            sysm.close()
+        out['problems'] = problems
+    th = threading.Thread(target=body)
+    th.start()
+    th.join(120)
+    if 'problems' not in out:
+        raise tlc.MachineryError('hanging-poll case did not finish')
+    c.traces_validated += 1
+    c.note_case(key=('hanging-poll',), nontrivial=True)
+    if out['problems']:
+        p_ = c.save_replay({'kind': 'hanging-poll', 'problems': out['problems']})
+        c.violation('shutdown() while the service does not answer a poll: %s' % out['problems'][:3], p_)
+
+
 def run_with_e2e(c):
     run(c)
+    hanging_poll_leg(c, tlc.scratch('c14h_'))
     plugin_cleans_up_leg(c, tlc.scratch('c14p_'))
     # end to end: after the real deep.shutdown() over a real gRPC connection nothing reaches the service any more,
     # every snapshot handed over before was delivered, and no trace function is left installed
